@@ -18,6 +18,36 @@ def S(n):
     return T.sym(n)
 
 
+def _scaled_norm_ok(p, got, want):
+    """sqrt(sum |x_k|^2) written as m * sqrt(sum (|x_k| / m)^2) with m = max_k |x_k| (a non-negative number): equal when the
+    squares agree (both sides are non-negative); and m itself on the path that found m == 0 (every entry is 0 then)."""
+    mx = [a for a in got.all_atoms() if isinstance(a, T.App) and a.op == "max" and len(a.args) == 2 and not isinstance(a.args[1], T.Poly)]
+    if len(set(mx)) != 1:
+        return False
+    m_atom = mx[0]
+    inner = m_atom.args[0].single_atom() if isinstance(m_atom.args[0], T.Poly) else None
+    if not (isinstance(inner, T.App) and inner.op == "sqrt"):
+        return False  # m must be a largest modulus (>= 0)
+    g2 = T.subst(got, lambda a: T.sym("m_") if a == m_atom else None)
+    if g2 == T.sym("m_"):
+        # returned m itself: only on a path that established m == 0
+        from ..interp import _cond_key
+
+        for c in p.conds:
+            t_ = getattr(c[3] if len(c) > 3 else None, "term", None)
+            if t_ is None:
+                continue
+            key, flip = _cond_key(t_)
+            if key[0] == "eq" and {repr(key[1]), repr(key[2])} == {repr(T.P(m_atom)), repr(T.ZERO)} and (c[2] != flip) is True:
+                return True
+        return False
+    sq = scaled_root_square(g2, "m_")
+    wa = want.single_atom() if isinstance(want, T.Poly) else None
+    if sq is None or not (isinstance(wa, T.App) and wa.op == "sqrt"):
+        return False
+    return "m_" not in sq.syms() and vec_dot_normal(sq) == vec_dot_normal(wa.args[0])
+
+
 def _call(ck, fname, build, max_paths=16):
     f = ck.program.func(MOD, fname)
 
@@ -222,6 +252,24 @@ def run(ck):
                     ck.check(not writes, "C15.R4", "scalar_mult/out is %s" % which, fi.site(), "writes %s before raising" % writes)
                 else:
                     ck.violation("C15.R4", "scalar_mult/out is %s" % which, fi.site(), "an output buffer that aliases an argument is accepted (no error raised)")
+        # an output buffer of another shape than the product (one made for a longer batch and reused for the last, shorter one):
+        # torch.mul(..., out=<view of it>) cannot resize it - the buffer comes back partly stale.  "rejects ... with an error
+        # rather than a wrong value"
+        def build_s(it):
+            x, y = cx(it, "x", ()), cx(it, "y", ("n",))
+            return [x, y], {"out": cx(it, "buf", ("m",))}
+        fi, paths = _call(ck, "scalar_mult", build_s)
+        for p in paths:
+            # (m and n are two sizes: a path that found them equal is the ordinary call with a fitting buffer)
+            eqs = cond_truths(p, lambda k: k[0] == "eq" and (k[1].syms() | k[2].syms()) == {"m", "n"})
+            if p.outcome == "raise":
+                ck.ok("C15.R4", "scalar_mult/out of another shape than the product is refused", fi.site())
+            elif True in eqs:
+                ck.ok("C15.R4", "scalar_mult/out of the product's shape is accepted", fi.site())
+            else:
+                ck.violation("C15.R4", "scalar_mult/out of another shape than the product is refused", fi.site(),
+                             "scalar_mult(x, y, out=buf) with y of shape (2, n) and buf of shape (2, m), m != n, returns: the product is written through views of buf that torch resizes, "
+                             "buf itself keeps its shape and comes back holding part of the product and part of its old contents", key="C15.R4|scalar_mult|out of another shape")
         # a *view* of an argument (x[:], x.view(...), x[...]) is another object with the same storage: writing the real part of the
         # product into it destroys the operand before the imaginary part is computed - it must be refused like the argument itself
         for which in ("x", "y"):
@@ -291,6 +339,8 @@ def run(ck):
                         ck.ok("C15.R5", fname, fi.site(), got=got)
                     elif T.ratfun_equal(got, w):
                         ck.ok("C15.R5", fname, fi.site(), got=got)
+                    elif _scaled_norm_ok(p, got, w):
+                        ck.ok("C15.R5", fname + " (root taken after scaling by the largest modulus)", fi.site(), got=got)
                     else:
                         d = lin_diff(got, w)
                         ck.check(diff_verdict(d), "C15.R5", fname, fi.site(), diff_msg(d), got=got, want=w)
@@ -365,6 +415,19 @@ def run(ck):
                          "after the scalar operand was overwritten in place the second call still multiplies by its previous value (%s): a converted copy kept from the first call is reused"
                          % ", ".join(sorted(stale)), key="C15.R8|%s|stale operand" % fname)
     ck.require_min("C15.R8", 2)
+    # ------------------------------------------------------------ R9 "all finite operand values": the modulus family keeps its range
+    # |z| = sqrt(re^2 + im^2) and x / |z|^2 formed literally lose finite float64 values: re^2 overflows for |re| > 1.34e154 and
+    # underflows below 1.5e-154, although the modulus / the quotient is representable (hypot and scaled division are not affected)
+    for fname, shapes in (("absolute_value", [("n",)]), ("norm", [("n",)]), ("inverse", [()]), ("elementwise_division", [("B",), ("B",)]), ("scalar_divide", [("B",), ()])):
+        with ck.guard("C15.R9", fname):
+            fi9, paths9 = _call(ck, fname, lambda it, shapes=shapes: ([cx(it, "xy"[i], s_) for i, s_ in enumerate(shapes)], {}))
+            rets9 = [p for p in paths9 if p.outcome == "return"]
+            ck.check(bool(rets9), "C15.R9", fname + ":returns", fi9.site(), "never returns")
+            haz = [h for p in rets9 for h in p.interp.numeric if "[range]" in h[1]]
+            ck.check(not haz, "C15.R9", fname + ":no squared modulus formed before the root / the division", haz[0][0] if haz else fi9.site(),
+                     "%s forms %s of the operand's parts: for finite operands with modulus outside about [1.5e-154, 1.3e154] the square overflows / underflows and the result is inf, 0 or nan "
+                     "although the true value is representable" % (fname, haz[0][1].split(" [")[0] if haz else ""), key="C15.R9|%s|squared modulus" % fname)
+    ck.require_min("C15.R9", 10)
     ck.require_min("C15.R5", 9)
     ck.require_min("C15.R6", 40)
     ck.assumptions += [
